@@ -1227,8 +1227,10 @@ pub fn run_tls_sessions(cfg: &ScenCfg, out: &mut RunOut) {
     let map = ServerHandlerMap::single(UnitId::new(1), handler);
     let addr: SocketAddr = "10.0.0.1:802".parse().unwrap();
     let listener = TcpListener::bind_now(addr).unwrap();
-    let max_sessions = 1 + choose(3) as usize;
-    let (handle, task) = create_tls_server_task(max_sessions, listener, map, tls, AddressFilter::Any, decode);
+    // 0 is documented to mean 1
+    let cfg_sessions = choose(4) as usize;
+    let max_sessions = cfg_sessions.max(1);
+    let (handle, task) = create_tls_server_task(cfg_sessions, listener, map, tls, AddressFilter::Any, decode);
     let task = simtokio::task::spawn_named("tls-server", task.run());
     kernel::settle();
     let mut conns: Vec<(usize, Kind)> = Vec::new();
